@@ -231,7 +231,9 @@ P["C03"] = dict(
              "R-INV-SOURCE: every consumer of the inv modifier reads it from the tokenized parameter map",
              "R-INV-SCOPE: the invocation's inv is removed from the globals handed to a macro body",
              "R-NAME-SIBLING: is_resource_name() is decided on operator_name(), so prefix modifiers / sugar do not hide a macro step",
-             "R-DISPATCH: Op::apply/handle_inversion truth tables"],
+             "R-DISPATCH: Op::apply/handle_inversion truth tables",
+             "R-PIPE-OWN-PARAMS: the pipeline constructor does not tokenize the text of its steps as its own parameter "
+             "list (step modifiers cannot become modifiers of the enclosing pipeline)"],
     not_decided=["</> desugaring and modifier rotation in the tokenizer", "bit-identity with stand-alone application "
                  "(follows from the shape but is not separately checked)", "omit_* leaking through globals"],
     level="Decides the interpreter's structure (order, duality, tally, modifier plumbing) on all paths; the "
